@@ -92,6 +92,16 @@ def _norm(f):
     return f
 
 
+def _weaker_bound(f, other):
+    """a one-variable bound that the other side does not have as tight: the same bound loosened by a little, if the other side
+    entails that (x >= 2 here, x == y and y >= 1 there: x >= 1 holds on both sides)"""
+    for delta in (1, 2, 3, 4, 8, 16, 64):
+        g = Lin(f.c - delta, dict(f.t))
+        if other.entails(g):
+            return g
+    return None
+
+
 class State:
     """conjunction of facts  f <= 0"""
 
@@ -275,11 +285,19 @@ class State:
         for f in self.facts:
             if f.key() in other._keys or other.entails(f):
                 res.add(f)
+            elif len(f.t) == 1:
+                res_weaker = _weaker_bound(f, other)
+                if res_weaker is not None:
+                    res.add(res_weaker)
         for f in other.facts:
             if f.key() in self._keys:
                 continue
             if self.entails(f):
                 res.add(f)
+            elif len(f.t) == 1:
+                res_weaker = _weaker_bound(f, self)
+                if res_weaker is not None:
+                    res.add(res_weaker)
         # constant-pair hull: terms pinned to (different) constants on both sides lie on a line
         names = set()
         for f in self.facts + other.facts:
